@@ -1,11 +1,11 @@
 (** * C10 — Separated sub-diagrams render independently of each other.
     Statements only; proofs in Theory/MergeTheory.v (M3), Theory/SepTheory.v, Theory/TreeSep.v
     Theory/PipeInv.v, Theory/SepOrder.v and Theory/Shift*.v. *)
-Require Import SB.Model.Base SB.Model.Geom SB.Model.Merge SB.Model.FragBuf SB.Model.Endorse SB.Model.Tree
+Require Import SB.Model.Base SB.Model.Unicode SB.Model.Geom SB.Model.Merge SB.Model.FragBuf SB.Model.Endorse SB.Model.Tree
   SB.Model.Svg SB.Model.Lib
   SB.Theory.MergeTheory SB.Theory.ShiftTheory SB.Theory.ShiftBuf SB.Theory.ShiftEndorse SB.Theory.SepTheory SB.Theory.TreeSep
   SB.Theory.PipeInv SB.Theory.SepOrder SB.Theory.ShiftText SB.Theory.Juxta SB.Model.Text
-  SB.Theory.ShiftDoc SB.Theory.SwitchTheory SB.Theory.StackDoc.
+  SB.Theory.ShiftDoc SB.Theory.SwitchTheory SB.Theory.StackDoc SB.Theory.Parts SB.Theory.SideDoc.
 From Coq Require Import Permutation QArith.
 #[local] Open Scope Z_scope.
 
@@ -211,7 +211,42 @@ Theorem C10_stacked_canvas :
         (cy (cells_max (cb_cells cbB)) + (height A + Z.of_nat g)).
 Proof. intros A B k g css cbA cbB cb G HA HB HAB NA NB. exact (stacked_canvas A B k g css cbA cbB cb G HA HB HAB ltac:(lia) NA NB). Qed.
 
-(** What remains with the correspondence and the oracle of this check: gaps of one line, the no-fit hypothesis
+(** Side by side, from the cell map: the left part lies in columns below [c0] (the second column
+    of a double-width character and the end of every quoted text included), columns [c0] and
+    [c0 + 1] are blank, the right part is [cellsB] moved by [c0 + 2] columns and [nz >= 0] rows;
+    [cells] is any listing of both whose restrictions are the parts (the cell map lists them
+    row by row).  The drawing nodes of the whole are those of the left part together with
+    those of the right part moved. *)
+Theorem C10_side_by_side :
+  forall (cells cellsA cellsB : span) (escsA escsB : list (cell * list Z)) (c0 nz : Z), 0 <= nz ->
+    filter (fun e => cx (fst e) <? c0) cells = cellsA ->
+    filter (fun e => negb (cx (fst e) <? c0)) cells = map (shift_cc (c0 + 2) nz) cellsB ->
+    (forall e, In e cellsA -> 0 <= cx (fst e) /\ 0 <= cy (fst e) /\ cx (fst e) + char_cols (snd e) - 1 < c0) ->
+    (forall e, In e cellsB -> 0 <= cx (fst e) /\ 0 <= cy (fst e)) ->
+    (forall e, In e escsA -> cx (fst e) + text_columns (snd e) <= c0) ->
+    (forall e, In e escsB -> 0 <= cx (fst e)) ->
+    forall s : Q,
+    let dx := (inject_Z (c0 + 2) * s)%Q in
+    let dy := (inject_Z nz * s * 2)%Q in
+    exists fA gA fB gB fAB gAB nA nB nAB,
+      frags_of cellsA escsA = Ok (fA, gA) /\ frags_of cellsB escsB = Ok (fB, gB)
+      /\ frags_of cells (escsA ++ shift_cb_texts (c0 + 2) nz escsB) = Ok (fAB, gAB)
+      /\ drawing_nodes s fA gA = Ok nA /\ drawing_nodes s fB gB = Ok nB /\ drawing_nodes s fAB gAB = Ok nAB
+      /\ Permutation nAB (nA ++ map (tr_node dx dy) nB).
+Proof.
+  intros cells cellsA cellsB escsA escsB c0 nz Nz FA FB NA NB QA QB s.
+  exact (side_by_side_drawing cells cellsA cellsB escsA escsB c0 nz FA FB NA NB QA QB s).
+Qed.
+(** [frags_of] is what the library computes from a cell buffer *)
+Theorem C10_frags_of_is_fragments_of : forall cb, fragments_of cb = frags_of (cb_cells cb) (cb_escaped cb).
+Proof. exact fragments_of_frags. Qed.
+Example C10_side_by_side_nonvacuous :
+  let cells := [(C 0 0, 43); (C 3 0, 45); (C 0 1, 43)] in
+  filter (fun e => cx (fst e) <? 1) cells = [(C 0 0, 43); (C 0 1, 43)]
+  /\ filter (fun e => negb (cx (fst e) <? 1)) cells = map (shift_cc (1 + 2) 0) [(C 0 0, 45)].
+Proof. split; reflexivity. Qed.
+
+(** What remains with the correspondence and the oracle of this check: gaps of one line or one column, the text stage of side-by-side placement, the no-fit hypothesis
     of the last two theorems (C12 bounds every fragment by the canvas, not by the cells of its
     own group) and the text stage of side-by-side placement (stacking is proved above). *)
 Example C10_nonvacuous : span_can_merge [(C 0 0, 45)] [(C 2 0, 45)] = false.
